@@ -91,6 +91,20 @@ THEOREMS = [
     "Pydjinni.Front.file_sound",
     "Pydjinni.Front.parseFile_iff_print",
     "Pydjinni.Front.parseText_iff_render",
+    "Pydjinni.Front.spanPos_eq_tokSpan",
+    "Pydjinni.Front.dataType_span",
+    "Pydjinni.Front.dataType_span_first_last",
+    "Pydjinni.Front.field_span",
+    "Pydjinni.Front.typeDecl_span",
+    "Pydjinni.Front.record_span",
+    "Pydjinni.Front.interface_span",
+    "Pydjinni.Front.parseFile_span",
+    "Pydjinni.Front.lex_segment_text",
+    "Pydjinni.Front.dataType_text_segment",
+    "Pydjinni.Front.lex_ordered",
+    "Pydjinni.Front.dataType_args_nest",
+    "Pydjinni.Front.record_field_within_pos",
+    "Pydjinni.Front.member_param_within_pos",
 ]
 LEVEL = "proof"
 
